@@ -2066,6 +2066,22 @@ impl Runtime {
         Some(k)
     }
 
+    /// Gives back the most recently allocated event (nothing refers to it yet).
+    fn sc_discard(&mut self, k: usize) {
+        if k + 1 == self.scg.evs.len() {
+            let (t, _) = self.scg.evs[k];
+            if self.scg.by_thread[t].last().copied() == Some(k as u32) {
+                self.scg.by_thread[t].pop();
+                self.scg.evs.pop();
+                self.scg.pred.pop();
+                return;
+            }
+        }
+        // (cannot happen: nothing is allocated between the load half and the store half; if it
+        // ever did, keeping the event as a load of the latest store is the conservative choice)
+        debug_assert!(false, "sc_discard: event {} is not the latest", k);
+    }
+
     /// Closure of the SeqCst events (other than `me`) that happen-before a point with `clock`.
     fn sc_closure_for(&self, clock: &VClock, me: usize) -> ScSet {
         let mut pc: ScSet = [0; SC_WORDS];
@@ -2423,13 +2439,13 @@ pub(crate) fn atomic_cas(
         rt.push_store_ev(li, new, t, ts, rel, true, reuse)
     } else {
         if let Some(k) = reuse {
-            // (SeqCst failure ordering with a weaker success ordering: the event stays a pure
-            // load of the latest store)
-            let mut c = rt.threads[t].clock;
-            c.join(&read_rel);
-            let mut pc = rt.sc_closure_for(&c, k);
-            rt.sc_collect_preds(li, last, &mut pc);
-            rt.sc_commit_read(li, last, k, pc);
+            // SeqCst failure ordering with a weaker success ordering: the compare-exchange
+            // succeeded, so the ordering that applies is the success ordering and the operation
+            // is not a SeqCst operation at all ([atomics.types.operations]: "if the comparison is
+            // true, memory is affected according to the value of success"). The event that was
+            // provisionally allocated for the load half is given back; treating it as a SeqCst
+            // load would add edges to S that C++20 does not have and hide executions.
+            rt.sc_discard(k);
         }
         rt.push_store(li, new, t, ts, rel, false)
     };
